@@ -174,21 +174,7 @@ def check(db, rep):
     # ------------------------------------------------------------------ r5
     r5 = rep.rule('r5', 'MERGE: every copied constituent is recorded (translation + alias map) and translated unconditionally', 3)
     mw = db.fn(S + 'rsOperationFacet::MergeWith')
-    loops = [n for n in mw.walk() if n['k'] == 'CXXForRangeStmt']
-    def unconditional(n, names):
-        cs = [x for x in mw.calls() if (x.get('cs') or '').split('::')[-1] in names and 'obj' in x and n in mw.stmts[x['obj']].get('txt', '')]
-        return cs and all(not any(a['k'] == 'IfStmt' for a in mw.ancestors(x)) for x in cs)
-    checks = (('translation', 'equateParams', ('Insert',)), ('alias-map', 'contextReplace', ('insert', 'emplace')), ('to-translate', 'inserted', ('insert', 'emplace')))
-    for label, var, names in checks:
-        if unconditional(var, names):
-            r5.ok('MergeWith:' + label, '`%s` filled for every copied constituent' % var, '%s:%d' % (mw.file, mw.line))
-        else:
-            r5.violation('MergeWith:' + label, '%s:%d' % (mw.file, mw.line), '`%s` is not filled for every copied constituent (missing or conditional): a copied constituent keeps mentions of an alias that now denotes a constituent of the first schema' % var)
-    tr = [n for n in mw.calls() if n.get('cs') == S + 'RSCore::Translate']
-    if tr and not any(a['k'] == 'IfStmt' for a in mw.ancestors(tr[0])) and any(a['k'] == 'CXXForRangeStmt' and 'inserted' in mw.stmts[a['range']].get('txt', '') for a in mw.ancestors(tr[0])):
-        r5.ok('MergeWith:translate', 'RSCore::Translate for every inserted copy', mw.loc(tr[0]))
-    else:
-        r5.violation('MergeWith:translate', '%s:%d' % (mw.file, mw.line), 'inserted copies are not all translated with the accumulated alias map')
+    _merge_rule(db, r5, mw)
     _admissible_table(db, rep)
 
 
@@ -243,3 +229,52 @@ def _admissible_table(db, rep):
         r6.violation('BinarySynthes::ResetResult', '%s:%d' % (f.file, f.line), bad)
     else:
         r6.ok('BinarySynthes::ResetResult', 'accepts exactly the admissible tables on %d cases' % cases, '%s:%d' % (f.file, f.line))
+
+
+def _merge_rule(db, r5, mw):
+    """names are taken from the code, not assumed: the alias map is what CreateTranslator receives, the set to translate is what the translating loop iterates"""
+    copy_calls = [n for n in mw.calls() if (n.get('cs') or '').endswith('::InsertCopy')]
+    copy_loops = [a for n in copy_calls for a in mw.ancestors(n) if a['k'] == 'CXXForRangeStmt'][:1]
+    ct = [n for n in mw.calls() if (n.get('cs') or '').endswith('CreateTranslator') and n.get('args')]
+    tr = [n for n in mw.calls() if n.get('cs') == S + 'RSCore::Translate']
+    if not copy_loops or not ct or not tr:
+        r5.violation('MergeWith:shape', '%s:%d' % (mw.file, mw.line), 'MergeWith no longer copies the constituents in a loop, builds a translator from the alias map and translates the copies')
+        return
+    loop = copy_loops[0]
+    amap = mw.strip(mw.stmts[ct[0]['args'][0]]).get('did')
+    ret = [r for p, r in mw.return_sites() if 'value' in r]
+    result = mw.strip(mw.stmts[ret[0]['value']]).get('did') if ret else None
+    while result is None and ret:       # return std::move(x) / copy construction
+        v = mw.strip(mw.stmts[ret[0]['value']])
+        inner = [x for x in mw.walk(v) if x['k'] == 'DeclRefExpr' and x.get('dk') == 'local']
+        result = inner[0].get('did') if inner else False
+
+    def fills(did):
+        """unconditional fill of container `did` inside the copy loop"""
+        cs = [x for x in mw.walk(mw.stmts[loop['body']]) if x['k'] == 'CXXMemberCallExpr' and 'obj' in x and mw.strip(mw.stmts[x['obj']]).get('did') == did
+              and (x.get('cs') or '').split('::')[-1] in ('insert', 'emplace', 'Insert', 'emplace_back', 'push_back')]
+        return cs and all(not any(a['k'] in ('IfStmt', 'ConditionalOperator') and any(y is a for y in mw.walk(mw.stmts[loop['body']])) for a in mw.ancestors(x)) for x in cs)
+    if result and fills(result):
+        r5.ok('MergeWith:translation', 'the returned translation is filled for every copied constituent', '%s:%d' % (mw.file, mw.line))
+    else:
+        r5.violation('MergeWith:translation', '%s:%d' % (mw.file, mw.line), 'the returned translation is not filled for every copied constituent (missing or conditional)')
+    if amap and fills(amap):
+        r5.ok('MergeWith:alias-map', 'the alias map is filled for every copied constituent', '%s:%d' % (mw.file, mw.line))
+    else:
+        r5.violation('MergeWith:alias-map', '%s:%d' % (mw.file, mw.line), 'the old-alias -> new-alias map is not filled for every copied constituent: mentions of that alias keep denoting a constituent of the first schema')
+    # every copy is translated, and only once the alias map is complete: no alias-map insertion is reachable after a Translate call
+    t0 = tr[0]
+    inserts = [x for x in mw.calls() if x['k'] == 'CXXMemberCallExpr' and 'obj' in x and mw.strip(mw.stmts[x['obj']]).get('did') == amap and (x.get('cs') or '').split('::')[-1] in ('insert', 'emplace', 'insert_or_assign')]
+    late = [x for x in inserts if mw.position_of(x) in mw.reach(mw.position_of(t0))]
+    tloops = [a for a in mw.ancestors(t0) if a['k'] == 'CXXForRangeStmt']
+    cond = any(a['k'] == 'IfStmt' for a in mw.ancestors(t0))
+    covered = False
+    if tloops:
+        rng = mw.strip(mw.stmts[tloops[0]['range']])
+        covered = (rng.get('did') is not None and (fills(rng.get('did')) or rng.get('did') == mw.strip(mw.stmts[loop['range']]).get('did')))
+    if late:
+        r5.violation('MergeWith:translate', mw.loc(t0), 'a copied constituent is translated while the alias map is still being filled (an insertion is reachable after the Translate call): a mention of a constituent copied later is left untranslated and captures a constituent of the first schema')
+    elif cond or not covered:
+        r5.violation('MergeWith:translate', mw.loc(t0), 'not every copied constituent is translated with the alias map')
+    else:
+        r5.ok('MergeWith:translate', 'every copy is translated after the alias map is complete', mw.loc(t0))
